@@ -110,6 +110,14 @@ func Catalogue(prop, tier string) []Cfg {
 	case "C01", "C02", "C07":
 		prioCore()
 		scripts()
+		if prop == "C02" || prop == "C07" {
+			// v1 accepts configurations in which the divider leaves a priority without an
+			// entry (the helpers call them fatal; v2 rejects them): the unchanged code
+			// still serves such a priority from idle handlers and waits for its input
+			add(pc("v1", []uint{7, 5, 3, 1}, 8, "rate", []int{1}, []int{1, 0, 0, 1}, "rr", ""))
+			add(pc("v1", []uint{7, 5, 3, 1}, 8, "rate", []int{1}, []int{0, 0, 0, 1}, "pool", ""))
+			add(pc("v1", []uint{7, 5, 3, 1}, 8, "rate", []int{1, 1, 1, 0}, []int{0, 0, 0, 2}, "pool", "")) // the share-less input is fed by a producer
+		}
 		if prop == "C07" {
 			// negative harnesses: while an input stays open, or an item is never released,
 			// the discipline must not terminate - for any length of time (closed cycles)
